@@ -31,7 +31,7 @@ def run(tier, seed):
         dict(name="C17_pair_exh", consts=bc.consts("pair", {"write", "enable", "loop", "flush", "finish", "script", "wmr"}, 3,
                                                    sizes=(1, 3), drains=(0, 99), wms=((0, 0), (0, 1)), durs=(0,), script_until=1,
                                                    allow=("pair_eof_before_data",)),
-             units=(1, 5000), known_keys={4: "pair-eof-before-data"}, invariants=inv),
+             units=(5000,), known_keys={4: "pair-eof-before-data"}, invariants=inv),
         dict(name="C17_pair_rand", consts=P(10, extras=("none", "w1", "disR", "enR")), simulate=20, units=(1, 1000)),
         dict(name="C17_filt_" + fn, consts=F(fn, 9), simulate=15, units=(1, 3000)),
         dict(name="C17_sock_" + ("def" if df else "imm"), consts=S(df, 10, extras=("none", "w1")), simulate=20, units=(1, 512)),
